@@ -16,7 +16,8 @@ From ApiFu Require Syn.Ast Vld.Ast Vld.TypeInfoModel Vld.TypeInfoPure Vld.Enumer
      Vld.ValidatorProofs Vld.ProofsSpecReach Vld.ProofsSubscription.
 From ApiFu Require Val.Values ExeA.ArgData ExeA.ArgArgs ExeA.ArgModel ExeA.ArgSpec ExeA.ArgHyps ExeA.ArgCollectProofs
      ExeA.ArgCacheProofs ExeA.ArgFuelProofs ExeA.ArgLevelProofs.
-From ApiFu Require Import Pipe.Convert Pipe.Compose Pipe.SchemaAgree Pipe.CollectEntries Pipe.AcyclicProofs Pipe.CondsProofs Pipe.AgreeProofs Pipe.InvariantProofs.
+From ApiFu Require Import Vld.ProofsCollectEntries.
+From ApiFu Require Import Pipe.Convert Pipe.Compose Pipe.SchemaAgree Pipe.AcyclicProofs Pipe.CondsProofs Pipe.AgreeProofs Pipe.InvariantProofs.
 Import ListNotations.
 
 (** ** small facts *)
